@@ -24,5 +24,21 @@ CLAIMS = {
              'end_segs -> junction pulse link from the compute_connections contract (C12 units); native sweep is a bounded stand-in only',
         design_ref='DESIGN.md §5 C09'),
 }
+CLAIMS['C17'] = dict(
+    text='Proof: tag assignment and ordering (Geo_Container.compute_tags, quantified loop invariants), global numbering '
+         '(Pulse_Container.add), both addressing forms of register_source / register_load incl. all-of-object and all, '
+         'and the pulse number printed by every source/load listing are postconditions of the real functions; unbounded '
+         'in objects and pulses.',
+    note='sort/sorted permutation axiom; INV_BLOCK (an object\'s pulses are container pulses) is assumed here and is the '
+         'contract of compute_connections (C12); the main() slices that parse the user strings are checked with abstract '
+         'strings under C15/C20 units; native sweep through main() is a bounded stand-in only',
+    design_ref='DESIGN.md §5 C17')
+CLAIMS['C07'] = dict(
+    text='Proof: compute_rhs is a fold whose step is linear in the voltage (doubled exactly on grounded pulses), '
+         'compute_currents = solve(Z, rhs), compute runs the four stages in order and sums the source powers, '
+         'Excitation.current/power/impedance and the seven numbers of the source block are V/I and Re(VI*)/2; the '
+         'matrix fill never reads source data (frame). Clause not decided: dBi invariance under scaling.',
+    note='solve() linear in b (LAPACK) and the transparency of the measure_time decorator are assumed; floats as reals',
+    design_ref='DESIGN.md §5 C07')
 for _p in CLAIMS:
     NOT_APPLICABLE.pop(_p, None)
